@@ -16,18 +16,29 @@ def _entries():
     return R.registry()
 
 
-def make_case(seed_tuple, eidx, tier):
-    """Deterministic case description from a seed tuple."""
+LABELINGS = ["half", "cold", "one_left", "few", "one_class"]
+
+
+def make_case(seed_tuple, eidx, tier, stratum=None):
+    """Deterministic case description from a seed tuple.  With `stratum` (the running number of the
+    case within its registry entry) the initial labeling and the batch-size class are not drawn but
+    cycled through, so that every entry meets every (labeling x batch-size class) combination - in
+    particular cold start x batch >= number of candidates, where any tie-breaking flaw must show -
+    once per 25 cases instead of by chance."""
     rng = np.random.default_rng(list(seed_tuple))
     E = _entries()[eidx]
-    X, y, y_true, classes, labeling = R.gen_data(rng, E.task, binary=E.binary)
+    X, y, y_true, classes, labeling = R.gen_data(rng, E.task, binary=E.binary,
+                                                 cold=None if stratum is None else LABELINGS[stratum % 5])
     mode, cand = R.gen_candidates(rng, E, X, y)
     ncand = {"none": int(np.sum(np.isnan(y))), "feat": None}.get(mode, None)
     if mode in ("idx_unl", "idx_any"):
         ncand = len(np.unique(cand))
     elif mode == "feat":
         ncand = len(cand)
-    bs = int(rng.choice([1, 2, 3, max(1, ncand), ncand + 5]))
+    bs_choices = [1, 2, 3, max(1, ncand), ncand + 5]
+    bs = int(rng.choice(bs_choices))
+    if stratum is not None:
+        bs = bs_choices[(stratum // 5) % 5]
     if E.max_bs:
         bs = min(bs, E.max_bs)
     seed = int(rng.integers(0, 1000))
@@ -83,6 +94,8 @@ def eff_bs(case):
     import math
     E = _entries()[case["eidx"]]
     cs, _ = cand_list(case)
+    if isinstance(E.subsample, tuple):          # an absolute number of sub-sampled candidates
+        return min(case["bs"], E.subsample[1])
     if E.subsample:
         return min(case["bs"], math.ceil(E.subsample * len(cs)))
     return case["bs"]
